@@ -928,7 +928,17 @@ def generate(rng, mode):
           ("orig", w(0.2, 1)), ("cond", w(0.1, 0.5, 0.3))]
     qw = [("reach", 3.0), ("can", w(0.5, 3))]
     q_ratio = rng.uniform(0.05, 0.3)
-  deep_profile = (mode == "c08" and not srcsets_profile and rng.random() < 0.06)
+  fat_profile = (mode == "c08" and not srcsets_profile and rng.random() < 0.12)
+  if fat_profile:
+    # one variable collects many bindings (9, dozens, past MAX_VAR_SIZE) and
+    # is asked both strictly and non-strictly: size thresholds inside the
+    # Variable / Filter code
+    cfgd["profile"] = "fatvar"
+    mw = [(k_, (w_ * 4 if k_ == "bind" else w_)) for k_, w_ in mw]
+    qw = [(k_, (max(w_, 2.0) if k_ in ("filter", "fdata", "vis") else w_)) for k_, w_ in qw]
+    n_ops = cfgd["n_ops"] = rng.randrange(30, 140)
+  deep_profile = (mode == "c08" and not srcsets_profile and not fat_profile
+                  and rng.random() < 0.06)
   if deep_profile:
     cfgd["profile"] = "deep"
   if not any(x for _, x in mw):
@@ -987,10 +997,14 @@ def generate(rng, mode):
       st["v"] += 1
       st["b"] += len(ds)
     elif k == "bind":
+      tv = rng.randrange(max(st["v"], 1))
+      dr = data_ref()
+      if fat_profile and rng.random() < 0.75:
+        tv, dr = 0, rng.randrange(len(DATA))
       if rng.random() < 0.12:
-        ops.append(["bind", rng.randrange(max(st["v"], 1)), data_ref(), None, None])
+        ops.append(["bind", tv, dr, None, None])
       else:
-        ops.append(["bind", rng.randrange(max(st["v"], 1)), data_ref(), bind_list(), node_ref()])
+        ops.append(["bind", tv, dr, bind_list(), node_ref()])
       st["b"] += 1
     elif k == "orig":
       ops.append(["orig", bind_ref(), node_ref(), bind_list()])
@@ -1030,6 +1044,8 @@ def generate(rng, mode):
       q = [k, rng.randrange(max(st["v"], 1)), node_ref()]
     elif k in ("filter", "fdata"):
       q = [k, rng.randrange(max(st["v"], 1)), node_ref(), rng.random() < 0.7]
+      if fat_profile and rng.random() < 0.6:
+        q = [k, 0, node_ref(), rng.random() < 0.5]
     else:
       q = ["reach", node_ref(), node_ref()]
     ops.append(q)
